@@ -230,9 +230,13 @@ class World(EventDispatcher):
         (TODO) returns cached results from this method.
         """
         fringe = [component_type]
+        visited = set()     # Subtypes can be reached through multiple bases
 
         while fringe:
             subtype = fringe.pop()
+            if subtype in visited:
+                continue
+            visited.add(subtype)
             fringe += subtype.__subclasses__()
 
             for entity in self._components.get(subtype, []):
